@@ -94,6 +94,10 @@ def oracle_ctl(ctx, ops, impl):
                 ctx.report(f"cache entry re-packed with spelling {pending_respell}, which is not the spelling of the request at hand",
                            {"op": op, "impl": im, "clients": clients})
             pending_respell = None
+        if t[:2] == ["C", "fwdlife"]:
+            ctx.report("forwarder lifecycle through forwardWithDialArg/retire/evict/reset: " + " ".join(t[2:]).replace("_", " "),
+                       {"op": op, "impl": im, "history": list(hist)})
+            continue
         if t[:2] == ["C", "udppath"]:
             # emitted only for a datagram that was received and is not the client's own
             ctx.report(f"UDP packet-send path: a coalesced client got a reply that is not its own ({' '.join(t[2:])}, got {im})",
